@@ -157,7 +157,29 @@ class Sym:
         return self.text
 
 
-def const_eval(node, env=None, sym_attrs=True):
+def const_eval(node, env=None, sym_attrs=True, sym_names=False):
+    if sym_names:
+        return _const_eval_sym_names(node, env or {}, sym_attrs)
+    return _const_eval(node, env, sym_attrs)
+
+
+def _const_eval_sym_names(node, env, sym_attrs):
+    """like const_eval, but unknown plain names become Sym values too"""
+    env = dict(env)
+    for n in ast.walk(node):
+        if isinstance(n, ast.Name) and n.id not in env and n.id not in ("True", "False", "None") \
+                and isinstance(n.ctx, ast.Load):
+            env[n.id] = Sym(n.id)
+    # comprehension targets must stay unbound
+    for n in ast.walk(node):
+        if isinstance(n, ast.comprehension):
+            for t in ast.walk(n.target):
+                if isinstance(t, ast.Name):
+                    env.pop(t.id, None)
+    return _const_eval(node, env, sym_attrs)
+
+
+def _const_eval(node, env=None, sym_attrs=True):
     """Evaluate a literal expression from the AST without executing code.
     Names resolve through `env`; dotted names not in env become Sym values
     when sym_attrs is set."""
@@ -179,21 +201,21 @@ def const_eval(node, env=None, sym_attrs=True):
                 return Sym(d)
         raise NotConst(ast.unparse(node))
     if isinstance(node, ast.Tuple):
-        return tuple(const_eval(e, env, sym_attrs) for e in node.elts)
+        return tuple(_const_eval(e, env, sym_attrs) for e in node.elts)
     if isinstance(node, ast.List):
-        return [const_eval(e, env, sym_attrs) for e in node.elts]
+        return [_const_eval(e, env, sym_attrs) for e in node.elts]
     if isinstance(node, ast.Set):
-        return {const_eval(e, env, sym_attrs) for e in node.elts}
+        return {_const_eval(e, env, sym_attrs) for e in node.elts}
     if isinstance(node, ast.Dict):
         d = {}
         for k, v in zip(node.keys, node.values):
             if k is None:
-                d.update(const_eval(v, env, sym_attrs))
+                d.update(_const_eval(v, env, sym_attrs))
             else:
-                d[const_eval(k, env, sym_attrs)] = const_eval(v, env, sym_attrs)
+                d[_const_eval(k, env, sym_attrs)] = _const_eval(v, env, sym_attrs)
         return d
     if isinstance(node, ast.UnaryOp):
-        v = const_eval(node.operand, env, sym_attrs)
+        v = _const_eval(node.operand, env, sym_attrs)
         if isinstance(node.op, ast.USub):
             return -v
         if isinstance(node.op, ast.UAdd):
@@ -204,31 +226,31 @@ def const_eval(node, env=None, sym_attrs=True):
             return ~v
     if isinstance(node, ast.BinOp) and type(node.op) in _BIN:
         return _BIN[type(node.op)](
-            const_eval(node.left, env, sym_attrs), const_eval(node.right, env, sym_attrs)
+            _const_eval(node.left, env, sym_attrs), _const_eval(node.right, env, sym_attrs)
         )
     if isinstance(node, ast.Call):
         fn = dotted(node.func)
         if fn == "len" and len(node.args) == 1:
-            return len(const_eval(node.args[0], env, sym_attrs))
+            return len(_const_eval(node.args[0], env, sym_attrs))
         if fn == "ord" and len(node.args) == 1:
-            return ord(const_eval(node.args[0], env, sym_attrs))
+            return ord(_const_eval(node.args[0], env, sym_attrs))
         if fn in ("frozenset", "set", "tuple", "list", "dict") and len(node.args) <= 1 and not node.keywords:
             ctor = {"frozenset": frozenset, "set": set, "tuple": tuple, "list": list, "dict": dict}[fn]
             if not node.args:
                 return ctor()
-            return ctor(const_eval(node.args[0], env, sym_attrs))
+            return ctor(_const_eval(node.args[0], env, sym_attrs))
     if isinstance(node, ast.DictComp) and len(node.generators) == 1:
         g = node.generators[0]
-        it = const_eval(g.iter, env, sym_attrs)
+        it = _const_eval(g.iter, env, sym_attrs)
         out = {}
         for item in it:
             e2 = dict(env)
             _bind(g.target, item, e2)
-            if all(const_eval(c, e2, sym_attrs) for c in g.ifs):
-                out[const_eval(node.key, e2, sym_attrs)] = const_eval(node.value, e2, sym_attrs)
+            if all(_const_eval(c, e2, sym_attrs) for c in g.ifs):
+                out[_const_eval(node.key, e2, sym_attrs)] = _const_eval(node.value, e2, sym_attrs)
         return out
     if isinstance(node, ast.Call) and isinstance(node.func, ast.Attribute) and node.func.attr == "items" and not node.args:
-        return list(const_eval(node.func.value, env, sym_attrs).items())
+        return list(_const_eval(node.func.value, env, sym_attrs).items())
     if isinstance(node, ast.JoinedStr):
         parts = []
         for v in node.values:
